@@ -14,19 +14,19 @@ import (
 
 // ReplayFile is the self-contained description of one violating execution.
 type ReplayFile struct {
-	Property string     `json:"property"`
-	Engine   string     `json:"engine"`
-	Seed     uint64     `json:"seed"`
-	Faulty   bool       `json:"faulty"`
-	Class    string     `json:"class"`
-	Sig      string     `json:"sig,omitempty"`
-	Detail   string     `json:"detail"`
-	Workload *Workload  `json:"workload"`
-	Picks    []string   `json:"picks"`
-	Base     []string   `json:"baseline_picks,omitempty"` // second schedule for cross-schedule classes
-	Expected *Expect    `json:"expected"`
-	Observed *Outcome   `json:"observed"`
-	Note     string     `json:"note,omitempty"`
+	Property string    `json:"property"`
+	Engine   string    `json:"engine"`
+	Seed     uint64    `json:"seed"`
+	Faulty   bool      `json:"faulty"`
+	Class    string    `json:"class"`
+	Sig      string    `json:"sig,omitempty"`
+	Detail   string    `json:"detail"`
+	Workload *Workload `json:"workload"`
+	Picks    []string  `json:"picks"`
+	Base     []string  `json:"baseline_picks,omitempty"` // second schedule for cross-schedule classes
+	Expected *Expect   `json:"expected"`
+	Observed *Outcome  `json:"observed"`
+	Note     string    `json:"note,omitempty"`
 }
 
 func maxSteps(w *Workload) int {
@@ -247,107 +247,153 @@ func worker(t *testing.T, c core.Cfg) {
 	inter := map[uint64]bool{}
 	maxViol := 6
 	selfcheck(t, c, part)
-	for g := c.Worker; time.Now().Before(deadline) && len(part.Violations) < maxViol; g += nw {
+	maxCases := int(core.EnvInt("VERIF_MAX_CASES", 0)) // determinism self-test: a fixed set of graphs
+	wantDigests := os.Getenv("VERIF_DIGESTS") != ""
+	if wantDigests {
+		part.Digests = map[string]uint64{}
+	}
+	for g := c.Worker; (maxCases > 0 && g < maxCases || maxCases == 0 && time.Now().Before(deadline)) && len(part.Violations) < maxViol; g += nw {
 		gseed := core.Derive(c.Seed, c.Property, "graph", fmt.Sprint(g))
-		w := Gen(gseed, faulty)
-		e := Model(w)
-		part.Cases++
-		part.Counters.Inc("family_" + w.Family)
-		part.Counters.Inc("template_" + w.Template)
-		if w.MaxDepth > 0 {
-			part.Counters.Inc("graphs_with_depth_limit")
+		ws := []*Workload{Gen(gseed, faulty)}
+		if faulty && c.Tier == "thorough" && g%3 == 0 && len(ws[0].Files) <= 5 {
+			// fault enumeration: every (file, certain kind) pair of a small graph
+			ws = enumerateSingleFaults(gseed)
+			part.Counters.Inc("graphs_with_exhaustive_single_fault_enumeration")
 		}
-		staticProbes(w, e, part.Counters)
-		shape := w.ShapeHash()
-		var base *Outcome
-		seenTrace := map[uint64]bool{}
-		stale := 0
-		classesSeen := map[string]bool{}
-		for si := 0; si < schedPerGraph && (si < 2 || time.Now().Before(deadline)); si++ {
-			var pk core.Picker
-			pname := "baseline-first"
-			if si == 0 {
-				pk = core.First{}
-			} else {
-				pk, pname = choosePicker(core.Derive(gseed, "sched", fmt.Sprint(si)), w)
+		var digest []string
+		for _, w := range ws {
+			e := Model(w)
+			part.Cases++
+			part.Counters.Inc("family_" + w.Family)
+			part.Counters.Inc("template_" + w.Template)
+			if w.MaxDepth > 0 {
+				part.Counters.Inc("graphs_with_depth_limit")
 			}
-			o := Execute(t, w, pk, maxSteps(w))
-			part.Evaluations++
-			part.Steps += int64(o.Steps)
-			part.Counters.Inc("policy_" + pname)
-			part.Counters.Merge(prefix("fault_fired_", o.Fired))
-			dynamicProbes(w, e, o, part.Counters)
-			th := core.HashStrings(o.Picks...)
-			if o.Choices >= 1 {
-				distinct[core.Derive(shape, fmt.Sprint(th))] = true
+			staticProbes(w, e, part.Counters)
+			shape := w.ShapeHash()
+			var base *Outcome
+			seenTrace := map[uint64]bool{}
+			stale := 0
+			classesSeen := map[string]bool{}
+			nsched := schedPerGraph
+			if len(ws) > 1 {
+				nsched = 6
 			}
-			inter[core.Derive(shape, fmt.Sprint(th))] = true
-			if o.OK {
-				part.Counters.Inc("outcome_ok")
-			} else {
-				part.Counters.Inc("outcome_error")
-			}
-			// determinism twin: every 16th run is re-executed from its own trace
-			if part.Evaluations%16 == 1 {
-				tw := Execute(t, w, &core.Trace{Keys: o.Picks}, maxSteps(w))
-				if tw.Sched.Diverged != "" {
-					part.HarnessErr = fmt.Sprintf("twin of graph %d schedule %d diverged: %s", g, si, tw.Sched.Diverged)
-					finishWorker(c, part, distinct, inter, start)
-					return
+			for si := 0; si < nsched && (si < 2 || maxCases > 0 || time.Now().Before(deadline)); si++ {
+				var pk core.Picker
+				pname := "baseline-first"
+				if si == 0 {
+					pk = core.First{}
+				} else {
+					pk, pname = choosePicker(core.Derive(gseed, "sched", fmt.Sprint(si)), w)
 				}
-				if d := sameRun(o, tw); d != "" {
-					part.HarnessErr = fmt.Sprintf("twin of graph %d (seed %d) schedule %d not identical: %s", g, gseed, si, d)
-					finishWorker(c, part, distinct, inter, start)
-					return
+				o := Execute(t, w, pk, maxSteps(w))
+				part.Evaluations++
+				part.Steps += int64(o.Steps)
+				if wantDigests {
+					digest = append(digest, pname, strings.Join(o.Log, "\n"), fmt.Sprint(o.OK), o.Err, o.JSON, o.Text, o.Panic)
 				}
-				part.Twins++
-			}
-			if len(part.Samples) < 1 && si == 3 {
-				part.Samples = append(part.Samples, sampleOf(w, e, o, pname))
-			}
-			vs := Check(w, e, o, base, faulty)
-			for _, v := range vs {
-				key := v.Class + "|" + v.Sig
-				if classesSeen[key] {
-					continue
+				part.Counters.Inc("policy_" + pname)
+				part.Counters.Merge(prefix("fault_fired_", o.Fired))
+				dynamicProbes(w, e, o, part.Counters)
+				th := core.HashStrings(o.Picks...)
+				if o.Choices >= 1 {
+					distinct[core.Derive(shape, fmt.Sprint(th))] = true
 				}
-				classesSeen[key] = true
-				part.Counters.Inc("raw_violation_" + v.Class)
-				var bp []string
-				if base != nil && v.Class == "schedule-dependent" {
-					bp = base.Picks
+				inter[core.Derive(shape, fmt.Sprint(th))] = true
+				if o.OK {
+					part.Counters.Inc("outcome_ok")
+				} else {
+					part.Counters.Inc("outcome_error")
 				}
-				// reproduce twice from the recorded trace before believing it
-				ok1, _, _, _, d1 := reproduce(t, w, o.Picks, bp, v.Class, faulty, false)
-				ok2, _, _, _, d2 := reproduce(t, w, o.Picks, bp, v.Class, faulty, false)
-				if !ok1 || !ok2 {
-					part.HarnessErr = fmt.Sprintf("violation %q of graph seed %d did not reproduce from its trace (%v %v %s %s): %s",
-						v.Class, gseed, ok1, ok2, d1, d2, v.Detail)
-					finishWorker(c, part, distinct, inter, start)
-					return
+				// determinism twin: every 16th run is re-executed from its own trace
+				if part.Evaluations%16 == 1 {
+					tw := Execute(t, w, &core.Trace{Keys: o.Picks}, maxSteps(w))
+					if tw.Sched.Diverged != "" {
+						part.HarnessErr = fmt.Sprintf("twin of graph %d schedule %d diverged: %s", g, si, tw.Sched.Diverged)
+						finishWorker(c, part, distinct, inter, start)
+						return
+					}
+					if d := sameRun(o, tw); d != "" {
+						part.HarnessErr = fmt.Sprintf("twin of graph %d (seed %d) schedule %d not identical: %s", g, gseed, si, d)
+						finishWorker(c, part, distinct, inter, start)
+						return
+					}
+					part.Twins++
 				}
-				f := found{v: v, w: w, picks: o.Picks, base: bp, o: o}
-				f = minimise(t, f, faulty, 150)
-				p := writeReplay(c, f, faulty, gseed)
-				part.Violations = append(part.Violations, core.ViolationRec{Class: f.v.Class, Sig: f.v.Sig,
-					Detail: f.v.Detail, Replay: p, Seed: gseed})
+				if len(part.Samples) < 1 && si == 3 {
+					part.Samples = append(part.Samples, sampleOf(w, e, o, pname))
+				}
+				vs := Check(w, e, o, base, faulty)
+				for _, v := range vs {
+					key := v.Class + "|" + v.Sig
+					if classesSeen[key] {
+						continue
+					}
+					classesSeen[key] = true
+					part.Counters.Inc("raw_violation_" + v.Class)
+					var bp []string
+					if base != nil && v.Class == "schedule-dependent" {
+						bp = base.Picks
+					}
+					// reproduce twice from the recorded trace before believing it
+					ok1, _, _, _, d1 := reproduce(t, w, o.Picks, bp, v.Class, faulty, false)
+					ok2, _, _, _, d2 := reproduce(t, w, o.Picks, bp, v.Class, faulty, false)
+					if !ok1 || !ok2 {
+						part.HarnessErr = fmt.Sprintf("violation %q of graph seed %d did not reproduce from its trace (%v %v %s %s): %s",
+							v.Class, gseed, ok1, ok2, d1, d2, v.Detail)
+						finishWorker(c, part, distinct, inter, start)
+						return
+					}
+					f := found{v: v, w: w, picks: o.Picks, base: bp, o: o}
+					f = minimise(t, f, faulty, 150)
+					p := writeReplay(c, f, faulty, gseed)
+					part.Violations = append(part.Violations, core.ViolationRec{Class: f.v.Class, Sig: f.v.Sig,
+						Detail: f.v.Detail, Replay: p, Seed: gseed})
+				}
+				if si == 0 {
+					base = o
+				}
+				if seenTrace[th] {
+					stale++
+				} else {
+					seenTrace[th] = true
+					stale = 0
+				}
+				// stop early when the schedule space of this graph looks exhausted
+				if stale >= 3*len(seenTrace)+2 {
+					break
+				}
 			}
-			if si == 0 {
-				base = o
-			}
-			if seenTrace[th] {
-				stale++
-			} else {
-				seenTrace[th] = true
-				stale = 0
-			}
-			// stop early when the schedule space of this graph looks exhausted
-			if stale >= 3*len(seenTrace)+2 {
-				break
-			}
+		} // workloads of this graph
+		if wantDigests {
+			part.Digests[fmt.Sprint(g)] = core.HashStrings(digest...)
 		}
 	}
 	finishWorker(c, part, distinct, inter, start)
+}
+
+// enumerateSingleFaults returns one workload per (file, applicable certain fault kind)
+// of the fault-free graph with this seed.
+func enumerateSingleFaults(gseed uint64) []*Workload {
+	var out []*Workload
+	base := Gen(gseed, false)
+	for _, f := range base.Files {
+		kinds := []string{"enoent", "eacces", "eio-open", "eio-read", "garbage-import", "garbage-body", "garbage-bracket"}
+		if f.Remote {
+			kinds = []string{"retrieve-error", "garbage-import", "garbage-body", "garbage-bracket"}
+		} else if f.Kind != "sysl" {
+			kinds = []string{"enoent", "eacces", "eio-open", "eio-read", "bad-foreign"}
+		}
+		for ki, k := range kinds {
+			w := cloneWorkload(base)
+			ft := Fault{File: f.ID, Kind: k, Certain: true, Param: ki}
+			w.Faults = []Fault{ft}
+			rebuild(w)
+			out = append(out, w)
+		}
+	}
+	return out
 }
 
 func prefix(p string, c core.Counters) core.Counters {
@@ -546,7 +592,12 @@ func TestEngine(t *testing.T) {
 		return
 	}
 	start := time.Now()
-	parts := core.SpawnWorkers(c, c.Workers, nil, func(i int) int { return []int{1, 4, 16}[i%3] })
+	gmp := []int{1, 4, 16}
+	if os.Getenv("VERIF_GOMAXPROCS_ROT") != "" { // determinism self-test: another assignment of GOMAXPROCS to workers
+		gmp = []int{16, 1, 4, 2}
+	}
+	parts := core.SpawnWorkers(c, c.Workers, nil, func(i int) int { return gmp[i%len(gmp)] })
+	core.DumpDigests(parts)
 	m := core.Merge(parts)
 	level := "exploration"
 	rule := "one evaluation = one execution of the real parse.Parser.Parse on a generated import graph under one seeded schedule; " +
